@@ -165,3 +165,77 @@ Section Simulation.
     intros (H1 & H2 & H3 & H4 & _). cbn. rewrite H2. repeat split; assumption.
   Qed.
 End Simulation.
+
+(* ---------------- a fresh model with the net configuration ---------------- *)
+Lemma replace_first_same x l : replace_first x x l = l.
+Proof.
+  induction l as [|y t IH]; cbn; [reflexivity|].
+  destruct (String.eqb y x) eqn:E; [apply String.eqb_eq in E; now subst|now rewrite IH].
+Qed.
+Lemma translate_identity l0 l : translate (identity_map l0) l = l.
+Proof.
+  unfold translate, identity_map. revert l. induction l0 as [|x t IH]; intros l; cbn; [reflexivity|].
+  rewrite replace_first_same. apply IH.
+Qed.
+Lemma values_identity l : values (identity_map l) = l.
+Proof. unfold values, identity_map. rewrite map_map. cbn. apply map_id. Qed.
+Lemma slookup_identity n l : match slookup n (identity_map l) with Some v => v | None => n end = n.
+Proof.
+  induction l as [|x t IH]; cbn; [reflexivity|].
+  destruct (String.eqb n x) eqn:E; [apply String.eqb_eq in E; now subst|exact IH].
+Qed.
+
+Section Canon.
+  Variable P : Type.
+  Variable variant : adm -> sbml.
+  Variable loggable : adm -> list string.
+  Variable has_comp : string -> bool.
+
+  (* the calls that apply a net configuration (without renaming and sensitivities) to a fresh model *)
+  Definition canon (a : adm) (r : option P) (sel : list string) : list (op P) :=
+    match a with
+    | Some (c, direct) =>
+      SetAdmin P c direct :: (match r with Some p => [SetRegimen P p] | None => [] end) ++ [SetOutputs P sel]
+    | None => [SetOutputs P sel]
+    end.
+
+  Theorem canon_reaches (a : adm) (r : option P) (sel sel0 : list string) :
+    (forall c d, a = Some (c, d) -> has_comp c = true) ->
+    forallb (fun n => mem n (loggable a)) sel = true ->
+    cfg_of (run variant loggable has_comp (canon a r sel) (init variant sel0))
+    = {| c_admin := a; c_regimen := match a with Some _ => r | None => None end;
+         c_pnames := parameter_names (variant a); c_outs := sel; c_onames := sel; c_sens := None |}.
+  Proof.
+    intros Hc Hl. unfold canon.
+    assert (Eo : forall om : list string,
+               values (map (fun n => (n, match slookup n (identity_map om) with Some v => v | None => n end)) sel) = sel).
+    { intros om. unfold values. rewrite map_map. cbn.
+      rewrite <- (map_id sel) at 2. apply map_ext. intros n. apply slookup_identity. }
+    destruct a as [[c d]|].
+    - specialize (Hc c d eq_refl).
+      destruct r as [p|]; cbn [app Config.run fold_left Config.step fst Config.init admin].
+      + rewrite Hc. cbn [fst admin omap outs sim_v]. rewrite translate_identity, Hl.
+        unfold disable_sens. cbn [has_sens fst]. unfold cfg_of. cbn. rewrite values_identity, Eo. reflexivity.
+      + rewrite Hc. cbn [fst admin omap outs sim_v]. rewrite translate_identity, Hl.
+        unfold disable_sens. cbn [has_sens fst]. unfold cfg_of. cbn. rewrite values_identity, Eo. reflexivity.
+    - cbn [Config.run fold_left Config.step fst Config.init omap sim_v]. rewrite translate_identity, Hl.
+      unfold disable_sens. cbn [has_sens fst]. unfold cfg_of. cbn. rewrite values_identity, Eo. reflexivity.
+  Qed.
+
+  (* hence: a history that ends in such a configuration leaves the object in exactly the state of a fresh model to
+     which only that configuration was applied *)
+  Theorem history_equals_fresh (ops : list (op P)) (a : adm) (r : option P) (sel sel0 : list string) :
+    (forall c d, a = Some (c, d) -> has_comp c = true) ->
+    forallb (fun n => mem n (loggable a)) sel = true ->
+    cfg_of (run variant loggable has_comp ops (init variant sel0))
+    = {| c_admin := a; c_regimen := match a with Some _ => r | None => None end;
+         c_pnames := parameter_names (variant a); c_outs := sel; c_onames := sel; c_sens := None |} ->
+    run variant loggable has_comp ops (init variant sel0)
+    = run variant loggable has_comp (canon a r sel) (init variant sel0).
+  Proof.
+    intros Hc Hl E. apply (same_config_same_state P variant).
+    - apply run_consistent, init_consistent.
+    - apply run_consistent, init_consistent.
+    - rewrite E. symmetry. now apply canon_reaches.
+  Qed.
+End Canon.
